@@ -66,7 +66,7 @@ def e2e_probe(ck):
         if a != b:
             ndiff += 1
             tag = b.split(" ")[0]
-            if tag in ("Z1", "Z2", "Z3", "Z4"):       # len after append of zero-size elements (F2)
+            if tag in ("Z1", "Z2", "Z3", "Z4"):       # len after append of zero-size elements (F2, repaired by fix 01)
                 acts.append(("viol", ("append-zero-size-elem-unchanged", "end to end: llgo prints %r, go prints %r" % (a, b), {"llgo": a, "go": b})))
             else:
                 acts.append(("viol", ("e2e-" + tag, "llgo prints %r, go prints %r" % (a, b), {"llgo": a, "go": b})))
@@ -118,7 +118,7 @@ def run(ck):
                   "stand-in packages props/C05/harness/{clite.go,stubs.go}: Memcpy/Memmove/Memset/Advance/AllocZ/AllocU on real memory with a block registry",
                   "hand-written models coq/theories/C05/{Model,StrModel}.v tied to the source text by the correspondence run"]
     ck.assumptions = ["z_slice.go, z_string.go, utf8.go are compiled by the ordinary Go compiler (S2); the code llgo generates for them is exercised only by the small end-to-end probe props/C05/harness/e2e (when it finishes in time)",
-                      "memcpy on partially overlapping ranges behaves as memmove (glibc x86-64; observed end to end); each such call is reported separately",
+                      "the stand-in memcpy has memmove semantics (glibc x86-64) and reports every call on partially overlapping ranges as a fault; SliceAppend itself now copies with memmove",
                       "len/cap/offset arithmetic is modelled on unbounded Z except nextslicecap (64-bit wrap modelled); append of more than 2^63 bytes is out of scope"]
     ck.coq_build("C05")
     ck.coq_props("LLGoV.C05.Props", "theories/C05/Props.v")
@@ -165,7 +165,7 @@ def run(ck):
     en, fi, fr = recs["enc"], recs["fromint"], recs["frunes"]
     jobs = [
         ("slice", ["((%s, [%s]), (%s, %s))" % (z(r["es"]), "; ".join(op_term(o) for o in r.get("ops", [])), zll(r.get("obs")), zll(r.get("heap")))
-                   for r in sl], "run_script", "script_eqb", sl, 60),
+                   for r in sl], "run_script", "script_eqb", sl, 40),
         ("cap", ["((%s, %s), %s)" % (z(r["in"][0]), z(r["in"][1]), z(r["out"][0])) for r in cp], "cap_case", "Z.eqb", cp, 500),
         ("str1", ["(%s, %s)" % (zl(r["s"]), zll(r["outs"])) for r in s1], "str1_model", "zll_eqb", s1, 500),
         ("str2", ["(((%s, %s), (%s, %s)), %s)" % (zl(r["s"]), zl(r["t"]), z(r["i"]), z(r["j"]), zll(r["outs"])) for r in s2],
@@ -195,7 +195,7 @@ def run(ck):
             ck.correspondence_broken("C05.Model/" + kind, {"n_mismatch": len(bad), "first": job[4][bad[0]]})
 
     if e2e_thr is not None:
-        e2e_thr.join(1500 if ck.tier == "thorough" else 25)
+        e2e_thr.join(float(os.environ.get("VERIF_C05_E2E_WAIT") or (1500 if ck.tier == "thorough" else 25)))
         acts = e2e_box[0] if e2e_box else [("log", "e2e probe not finished in time (machine loaded): dropped from this run"),
                                             ("cov", "dropped: not finished in time")]
         for kind, a in acts:
